@@ -19,7 +19,7 @@ from sim.world import Run
 
 ID = "C23"
 LEVEL = "exploration"
-RUNS = {"quick": 24000, "thorough": 500000}
+RUNS = {"quick": 24000, "thorough": 3000000}
 BUDGET = {"quick": 100.0, "thorough": 3300.0}
 RULE = ("one run = one seeded history of server-sent TunnellingRequests / DeviceConfigurationRequests (counters "
         "next/previous/skip/random/burst, wrap-around runs of 600 frames) over a dropping, duplicating, delaying "
